@@ -1,15 +1,20 @@
 #!/bin/sh
-# Re-runs the stored seeded changes (seeded/<id>/patch.diff) against the quick check of the property each one breaks and prints
-# one line per seed.  usage: harness/reseed.sh [seed-id ...]   (default: all).  /repo must be clean; it is restored after every seed.
+# Re-runs stored seeded changes (seeded/<id>/patch.diff) against the quick check of the property each one breaks, in a scratch
+# worktree of /repo's HEAD (never in /repo itself), and prints one line per seed.
+# usage: harness/reseed.sh [seed-id ...]   (default: all)
 cd /verif || exit 1
-git -C /repo status --short | grep -q . && { echo "repo dirty"; exit 1; }
 ids="$@"; [ -n "$ids" ] || ids=$(ls seeded)
+wt=/var/tmp/reseed_wt_$$
 for id in $ids; do
   p=$(echo $id | cut -c1-3)
   [ -f seeded/$id/patch.diff ] || continue
-  if ! git -C /repo apply --check seeded/$id/patch.diff 2>/dev/null; then echo "$id: patch does not apply to the current tree (older base)"; continue; fi
-  git -C /repo apply seeded/$id/patch.diff
-  out=$(VERIF_NO_EVIDENCE=1 timeout 1800 ./check $p --quick 2>&1 | grep -E "VIOLATION|INTERNAL" | head -2 | tr '\n' ' ' | cut -c1-200)
-  git -C /repo checkout -- .
-  echo "$id $p: ${out:-MISSED}"
+  git -C /repo worktree add -q --detach $wt HEAD || exit 1
+  if ! git -C $wt apply /verif/seeded/$id/patch.diff 2>/dev/null; then
+    echo "$id: patch does not apply to the current tree (older base)"
+  else
+    props=$p
+    [ -n "$RESEED_PROPS" ] && props="$RESEED_PROPS"
+    harness/mutcheck.sh $wt $props | sed "s/^$(basename $wt)/$id/"
+  fi
+  git -C /repo worktree remove --force $wt
 done
